@@ -2,7 +2,7 @@
 Model: coq/Model/Caps.v; theorems: coq/Props/C08.v; spec: coq/Spec/CapsSpec.v."""
 import itertools
 ID = 'C08'
-COQ_ROOTS = ['Props/C08.v']
+COQ_ROOTS = ['Props/C08.v', 'GenProps/Caps_consts.v']
 RULE = ('URI lists from a segment grammar (well-formed in both URN forms, truncated after every segment, '
         'over-long, look-alikes by single-segment substitution/insertion/deletion, parameter strings incl. a=b=c, '
         'empty, repeated ?, duplicates, non-ASCII) x queries (every advertised URI, every shorthand the independent '
